@@ -480,6 +480,7 @@ class Evaluator:
         self.effects: List[Tuple[Term, ast.AST, Term]] = []  # (path condition, statement, rendered) for Expr statements
         self.inlined: List[str] = []
         self.lambdas: Dict[str, Tuple[ast.Lambda, Dict[str, Term], "Frame"]] = {}
+        self.localdefs: Dict[str, ast.FunctionDef] = {}
         self.inline_class_consts = False   # opt-in: read ``self.X`` as the class-level constant X of a plain class
 
     # -- typing -----------------------------------------------------------------------
@@ -712,6 +713,8 @@ class Evaluator:
                 continue
             if isinstance(st, (ast.FunctionDef, ast.ClassDef)):
                 fr.env[st.name] = ("localdef", st.name)
+                if isinstance(st, ast.FunctionDef):
+                    self.localdefs[st.name] = st
                 continue
             if isinstance(st, ast.Match):
                 from .normalize import match_as_if
@@ -981,6 +984,17 @@ class Evaluator:
             return ("list", tuple(subst(elt, {b: item}) for item in gens[0][0][1]))
         return ("comp", kind, elt, tuple(gens))
 
+    def _returns_object(self, t: Term) -> bool:
+        """a call of a package function whose declared result is a class of the package (not Optional): never None"""
+        if t[0] == "call" and isinstance(t[1], tuple) and t[1][0] == "fn":
+            cands = [x for x in self.model.all_functions() if x.qualname == t[1][1]]
+            if len(cands) == 1 and cands[0].node.returns is not None:
+                txt = ast.unparse(cands[0].node.returns)
+                if "Optional" in txt or "None" in txt or "Union" in txt:
+                    return False
+                return self.ann_class(cands[0].node.returns, cands[0].module) is not None
+        return False
+
     def _instance_assigned(self, c: ClassInfo, name: str) -> bool:
         key = (c.name, name)
         cache = self.__dict__.setdefault("_inst_assigned", {})
@@ -1006,6 +1020,12 @@ class Evaluator:
             if c is not None and is_named_tuple(c):
                 names = named_tuple_fields(c)
                 d = dict(v[2])
+                for st_ in c.node.body:      # fields left out take their declared default
+                    if isinstance(st_, ast.AnnAssign) and isinstance(st_.target, ast.Name) and st_.value is not None and st_.target.id not in d:
+                        try:
+                            d[st_.target.id] = self.expr(st_.value, Frame(None, c.module, {}, c, 1))
+                        except Unsupported:
+                            pass
                 if len(names) == n and all(k in d for k in names):
                     return [d[k] for k in names]
         return None
@@ -1063,7 +1083,7 @@ class Evaluator:
             return c if op == "in" else t_not(c)
         if op in ("is", "isnot", "==", "!=") and NONE in (a, b):
             other = b if a == NONE else a
-            if _never_none(other):
+            if _never_none(other) or self._returns_object(other):
                 return FALSE if op in ("is", "==") else TRUE
         return t_cmp(op, a, b)
 
@@ -1167,6 +1187,11 @@ class Evaluator:
                 env2 = dict(cenv)
                 env2.update(dict(zip(names, args)))
                 return self.expr(node.body, Frame(cfr.fn, cfr.module, env2, cfr.self_cls, fr.depth + 1))
+        if isinstance(e.func, ast.Name) and fr.env.get(e.func.id) == ("localdef", e.func.id) and e.func.id in self.localdefs \
+                and not kwargs and not any(a[0] == "star" for a in args) and fr.depth < self.max_depth:
+            v = self.apply_local(self.localdefs[e.func.id], args, fr)
+            if v is not None:
+                return v
         if isinstance(e.func, ast.Name) and fr.env.get(e.func.id, ("?",))[0] == "fn":
             # a local name bound to a function of the package: the call is a call of that function
             qn = fr.env[e.func.id][1]
@@ -1284,7 +1309,32 @@ class Evaluator:
         return ("call", f, tuple(args), tuple(kwargs))
 
     # -- functional builtins as comprehensions ------------------------------------------------------------
+    def apply_local(self, d: ast.FunctionDef, args: List[Term], fr: Frame) -> Optional[Term]:
+        """value of a call of a nested function that has no statement effects (closure: free names read from the current environment)"""
+        names = [a.arg for a in d.args.posonlyargs + d.args.args]
+        if len(names) != len(args) or d.args.vararg or d.args.kwarg or d.args.kwonlyargs or d.decorator_list \
+                or any(isinstance(n, (ast.Yield, ast.YieldFrom, ast.Nonlocal, ast.For, ast.While)) for n in ast.walk(d)):
+            return None
+        env2 = dict(fr.env)
+        env2.update(dict(zip(names, args)))
+        sub = Evaluator.__new__(Evaluator)
+        sub.__dict__.update(self.__dict__)
+        sub.effects = []
+        try:
+            outs = sub.block(d.body, Frame(fr.fn, fr.module, env2, fr.self_cls, fr.depth + 1), TRUE)
+        except Unsupported:
+            return None
+        if sub.effects:
+            return None
+        res = [o for o in outs if o.kind != "fall" and o.cond != FALSE]
+        for o in outs:
+            if o.kind == "fall" and o.cond != FALSE:
+                res.append(Outcome(o.cond, "return", NONE, d))
+        return self.merge(res) if res else None
+
     def apply_callable(self, f: Term, arg: Term, fr: Frame) -> Optional[Term]:
+        if f[0] == "localdef" and f[1] in self.localdefs:
+            return self.apply_local(self.localdefs[f[1]], [arg], fr)
         """f(arg) for the callables that occur as ``key=`` / ``map`` / ``filter`` arguments: a lambda with its closure, ``attrgetter('a')``, a class
         (construction), a package function, a bound method."""
         if f[0] == "lambda" and f[1] in self.lambdas:
